@@ -56,7 +56,83 @@ func instrCount(fn *ssa.Function) int {
 	return n
 }
 
+// call executes a call instruction and then applies the site clauses
+// ("at call N of KEY assert/ghost ...") of the function under contract.
 func (f *frame) call(x *ssa.Call, cc *ssa.CallCommon, pc *Term, st State) {
+	var pre State
+	if f.spec != nil && len(f.spec.Sites) > 0 && x != nil {
+		pre = st.clone()
+	}
+	f.callInner(x, cc, pc, st)
+	if pre == nil {
+		return
+	}
+	key := callKey(cc)
+	ord := -1
+	for _, site := range f.spec.Sites {
+		if site.Callee != key {
+			continue
+		}
+		if ord < 0 {
+			ord = siteOrdinal(f.fn, x, key)
+		}
+		if site.Ord != ord {
+			continue
+		}
+		site.Used = true
+		env := f.newSpecEnv(st, pre)
+		env.at = x.Block()
+		env.atInstr = x
+		for i, n := range f.spec.Params {
+			if i < len(f.params) {
+				env.vars[n] = f.params[i]
+			}
+		}
+		if rv, ok := f.vals[x]; ok {
+			if rv.Tuple != nil {
+				env.results = rv.Tuple
+			} else {
+				env.results = []Val{rv}
+			}
+		}
+		switch site.Kind {
+		case "assert":
+			if g := f.safeEval(env, site.C); g != nil {
+				f.check("assert", f.oblName(fmt.Sprintf("call#%d(%s)/assert%s", ord, key, clauseTag(site.C, 0))), pc, g, x.Pos(), site.C)
+			}
+		case "assume":
+			if g := f.safeEval(env, site.C); g != nil {
+				f.c.note("ASSUMED at call site in " + funcKey(f.fn) + ": " + site.C.Text)
+				f.c.addHyp(Implies(pc, g))
+			}
+		case "ghost":
+			func() {
+				defer func() {
+					if r := recover(); r != nil {
+						if se, ok := r.(specError); ok {
+							f.c.warn = append(f.c.warn, fmt.Sprintf("SPEC-ERROR %s:%d: %s", site.C.File, site.C.Line, se.msg))
+							f.c.specErrors++
+							return
+						}
+						panic(r)
+					}
+				}()
+				v := env.eval(site.C.E)
+				g, ok := f.c.specs.Ghosts[site.Ghost]
+				if !ok {
+					env.fail("unknown ghost variable %s", site.Ghost)
+				}
+				v = env.fit(v, f.c.evalType(g.Type, env.pkg()))
+				hn := "ghost$" + site.Ghost
+				cur := f.c.heapVar(st, hn, f.term(v).Sort)
+				_ = cur
+				st[hn] = f.term(v)
+			}()
+		}
+	}
+}
+
+func (f *frame) callInner(x *ssa.Call, cc *ssa.CallCommon, pc *Term, st State) {
 	c := f.c
 	var resType types.Type
 	if x != nil {
@@ -212,6 +288,9 @@ func callKey(cc *ssa.CallCommon) string {
 
 func (f *frame) applyContract(sp *FuncSpec, callee *ssa.Function, args []Val, pc *Term, st State, x *ssa.Call, cc *ssa.CallCommon, resType types.Type) Val {
 	c := f.c
+	if tr := sp.Flags["trusted"]; tr != "" {
+		c.note("assumed (trusted) contract on " + sp.PkgPath + "::" + sp.Key + " — " + tr)
+	}
 	env := f.newSpecEnv(st, st.clone())
 	env.calleeOf = callee
 	bindParams(env, sp, callee, args)
@@ -271,6 +350,7 @@ func (f *frame) applyContract(sp *FuncSpec, callee *ssa.Function, args []Val, pc
 	post.calleeOf = callee
 	bindParams(post, sp, callee, args)
 	post.results = results
+	f.applyGhostSets(sp, post, st)
 	for _, e := range sp.Ensures {
 		c.addHyp(Implies(pc, post.evalBool(e.E)))
 	}
@@ -546,6 +626,11 @@ func (f *frame) builtin(b *ssa.Builtin, cc *ssa.CallCommon, pc *Term, st State, 
 		return f.freshVal("builtin", x.Type(), st)
 	}
 	return Val{}
+}
+
+func (f *frame) chanCap(a Val) *Term {
+	f.c.declFun("chan_cap", []*Sort{IntSort}, f.c.idxSort())
+	return App("chan_cap", f.c.idxSort(), a.T)
 }
 
 func (f *frame) chanLen(a Val, st State) Val {
